@@ -16,6 +16,15 @@ ArgNames == {"p", "q", "z"}
 Kinds == {"str", "int", "float", "arr"}
 \* a type is declared, or inferred from the default value when there is one
 TypeOf(pr) == IF pr.typ # "" THEN pr.typ ELSE IF pr.def = "s" THEN "string" ELSE IF pr.def = "i" THEN "integer" ELSE ""
+\* ---- the full table of declared (or inferred) types against value kinds: the eight types of the language, ten kinds
+AllTypes == {"string", "bool", "integer", "float", "number", "array", "map", "bytes"}
+AllKinds == {"str", "safe-str", "i64", "u64", "i128", "u128", "float", "bool", "arr", "map", "bytes"}
+TypeAccepts(ty, k) == CASE ty = "string" -> k \in {"str", "safe-str"} [] ty = "bool" -> k = "bool" [] ty = "integer" -> k \in {"i64", "u64", "i128", "u128"}
+                        [] ty = "float" -> k = "float" [] ty = "number" -> k \in {"i64", "u64", "i128", "u128", "float"}
+                        [] ty = "array" -> k = "arr" [] ty = "map" -> k = "map" [] ty = "bytes" -> k = "bytes"
+\* the type a default value implies when none is declared (a default of none implies nothing)
+InferredFrom(defkind) == CASE defkind = "str" -> "string" [] defkind = "int" -> "integer" [] defkind = "float" -> "float" [] defkind = "bool" -> "bool"
+                           [] defkind = "arr" -> "array" [] defkind = "map" -> "map" [] OTHER -> ""
 Matches(ty, k) == \/ ty = "" \/ (ty = "string" /\ k = "str") \/ (ty = "integer" /\ k = "int") \/ (ty = "number" /\ k \in {"int", "float"})
 Names(sig) == {sig.ps[i].n : i \in 1..Len(sig.ps)}
 Supplied(call) == {a \in ArgNames : call[a] # "-"}
